@@ -40,8 +40,11 @@ CMP = {"Eq": lambda a, b: a == b, "Ne": lambda a, b: a != b, "Lt": lambda a, b: 
 
 
 class Folder:
-    def __init__(self, prog, max_depth=5, opaque=None):
+    def __init__(self, prog, max_depth=5, opaque=None, effects=None, effects_names=None):
         self.opaque = opaque
+        # effects(name, folded args) -> folded result: lets a rule record calls of output routines (write_char, write_n, ..) and continue with their success value
+        self.effects = effects
+        self.effects_names = effects_names or (lambda n: True)
         self.prog = prog
         self.max_depth = max_depth
         self._paths = {}
@@ -185,6 +188,10 @@ class Folder:
             return _c(r)
         if k == "call":
             name = t[1]
+            if isinstance(name, str) and self.effects is not None:
+                r = self.effects(name, [self.ev(a, env, bind, depth) for a in t[2]]) if self.effects_names(name) else None
+                if r is not None:
+                    return r
             if isinstance(name, str) and name.startswith("std::convert::num::<impl std::convert::From<") and name.endswith(">::from"):
                 return _ident(self, [self.ev(a, env, bind, depth) for a in t[2]])
             if isinstance(name, str) and name in STD_MODELS:
